@@ -138,6 +138,7 @@ fn seq_strategy() -> BoxedStrategy<String> {
         8 => prop::char::range(' ', '~'),
         1 => Just('\u{65e5}'),
         1 => Just('\u{e9}'),
+        3 => any::<char>().prop_filter("not BEL/ESC", |c| *c != '\x07' && *c != '\x1b'),
     ];
     let osc = (prop::collection::vec(payload_ch, 0..8), any::<bool>()).prop_map(|(p, bel)| {
         let mut s = String::from("\x1b]");
@@ -185,7 +186,7 @@ impl Property for P {
         }
     }
     fn rule() -> String {
-        "(a) every Unicode scalar value except ESC, enumerated completely on each build: display_width(c) == table(c) <= len_utf8(c); (b) clean token strings: == sum of table widths outside sequences found by the harness's own scanner; (c) ESC-free x,y: additivity; (d) insertion of a generated well-formed CSI/OSC at a char boundary outside existing sequences leaves the width unchanged; (e) arbitrary strings incl. malformed escapes: <= byte length. Non-trivial: (a) every scalar; (b,c,e) the string has a multi-byte character or an ESC; (d) every case. distinct = distinct serialized cases + scalars".into()
+        "(a) every Unicode scalar value except ESC, enumerated completely on each build: display_width(c) == table(c) <= len_utf8(c), and the scalar inside an OSC payload / after a CSI introducer is swallowed by the sequence; (b) clean token strings: == sum of table widths outside sequences found by the harness's own scanner; (c) ESC-free x,y: additivity; (d) insertion of a generated well-formed CSI/OSC at a char boundary outside existing sequences leaves the width unchanged; (e) arbitrary strings incl. malformed escapes: <= byte length. Non-trivial: (a) every scalar; (b,c,e) the string has a multi-byte character or an ESC; (d) every case. distinct = distinct serialized cases + scalars".into()
     }
     fn assumptions() -> Vec<String> {
         vec![if cfg!(feature = "full") {
@@ -240,13 +241,48 @@ impl Property for P {
             if got == c.len_utf8() && got >= 2 && tight.len() < 8 {
                 tight.push(format!("U+{:04X}", u));
             }
+            // the same scalar as the payload of an OSC and as a parameter
+            // of a CSI sequence: the sequence must swallow it
+            if c != '\x07' {
+                let t = format!("\x1b]{}\x07a", c);
+                let got = display_width(&t);
+                n += 1;
+                if got != 1 {
+                    return Some(Extra {
+                        evaluations: n,
+                        nontrivial: n,
+                        info: json!({}),
+                        failure: Some((
+                            serde_json::to_value(Case::Clean { text: t.clone() }).unwrap(),
+                            format!("display_width({:?}) = {} (an OSC sequence with payload U+{:04X}, then 'a'): expected 1", t, got, u),
+                        )),
+                    });
+                }
+            }
+            {
+                let t = format!("\x1b[{}ma", c);
+                let want = if ('@'..='~').contains(&c) { 2 } else { 1 };
+                let got = display_width(&t);
+                n += 1;
+                if got != want {
+                    return Some(Extra {
+                        evaluations: n,
+                        nontrivial: n,
+                        info: json!({}),
+                        failure: Some((
+                            serde_json::to_value(Case::Clean { text: t.clone() }).unwrap(),
+                            format!("display_width({:?}) = {} (CSI with U+{:04X} as first byte after the introducer): expected {}", t, got, u, want),
+                        )),
+                    });
+                }
+            }
         }
         Some(Extra {
             evaluations: n,
             nontrivial: n,
             info: json!({
                 "exhaustive": true,
-                "what": "all Unicode scalar values except ESC, one string per value",
+                "what": "all Unicode scalar values except ESC: alone, as the payload of an OSC sequence, and as the first byte after a CSI introducer",
                 "scalars_checked": n,
                 "width_histogram": {"0": hist[0], "1": hist[1], "2": hist[2], "3+": hist[3]},
                 "multi_column_chars_with_width_equal_to_utf8_len": tight,
